@@ -21,7 +21,7 @@ FUNCTIONS = [
 ASSUMPTIONS = [
     "coroutine as sequential procedure (vc.drive): each `await asyncio.sleep(d)` advances the clock by d; during every sleep the set of known offers changes arbitrarily (interference hook), so the entries are proved to be computed from the state at that instant",
     "random.uniform(a, b) lies between a and b; send_sd observed as a call (no remote argument = multicast group)",
-    "repetition count 0..4 enumerated (the property's own bound); delays and TTL symbolic",
+    "repetition count, delays and TTL symbolic: the repetition loop is verified by a loop contract (one arbitrary repetition k waits 2**k * base -- pow2 uninterpreted with its defining equations --, may end the task, otherwise sends its round; left after exactly REPETITIONS_MAX repetitions); the statement about the whole trace is the induction over the repetitions (trusted rule)",
 ]
 BOUNDED = []
 EXPLANATION = "the find task is verified as a trace for every timing configuration, arbitrarily many watched filters (comprehension contract: an arbitrary filter contributes its FindService entry iff it has no live offer at that instant) and every change of the known offers between rounds"
@@ -64,7 +64,21 @@ def _be_result(vc, res):
     st["lists"].append(res)
 
 
-LOOPS = {("someip.sd.ServiceDiscover.send_find_services/_build_entries", "comp", 0): {"head": _be_head, "post": _be_post, "result": _be_result}}
+# ---- contract of the repetition loop (ARBITRARILY MANY repetitions): cut at an arbitrary
+#   repetition k (0 <= k < REPETITIONS_MAX); it waits 2**k * base, computes the round from the
+#   offers known then, ends the task if nothing is missing (may_exit) and sends the list
+#   otherwise; the loop is left after exactly REPETITIONS_MAX repetitions
+
+
+def _rep_head(vc, v, entering):
+    st = vc.stashed("sfs")
+    st["rep"] = (entering, v["$k"])
+
+
+LOOPS = {
+    ("someip.sd.ServiceDiscover.send_find_services/_build_entries", "comp", 0): {"head": _be_head, "post": _be_post, "result": _be_result},
+    ("someip.sd.ServiceDiscover.send_find_services", 0): {"head": _rep_head, "may_exit": True},
+}
 
 
 def ob_send_find_services(vc):
@@ -81,14 +95,15 @@ def ob_send_find_services(vc):
     t.INITIAL_DELAY_MIN = vc.real("initial_min", 0)
     t.INITIAL_DELAY_MAX = vc.real("initial_max", 0)
     vc.assume(t.INITIAL_DELAY_MIN <= t.INITIAL_DELAY_MAX)
-    t.REPETITIONS_MAX = vc.choice("repetitions", (0, 1, 2, 3, 4))
+    # any number of repetitions (loop contract); native runs execute the real loop
+    t.REPETITIONS_MAX = vc.int("repetitions", 0, 6 if vc.native else None)
     t.REPETITIONS_BASE_DELAY = vc.real("base_delay", 0)
     t.FIND_TTL = vc.int("find_ttl", 1, 0xFFFFFF)
     disc.watched_services = vc.lazy_dict("watched", _gen_listeners, _gen_filter, default=set)
     log = []
     # per round: is any watched filter without a live offer?  (arbitrary: offers and
     # stop-offers arrive while the task sleeps)
-    st = {"round": -1, "missing": [vc.bool("missing_in_round_" + str(k)) for k in range(5)], "lists": [], "element": None, "found": None, "asked": []}
+    st = {"round": -1, "missing": [vc.bool("missing_in_round_" + str(k)) for k in range(2)], "lists": [], "element": None, "found": None, "asked": [], "rep": None}
     vc.stash("sfs", st)
 
     def on_send(entries, remote=None):
@@ -153,12 +168,22 @@ def ob_send_find_services(vc):
                 else:
                     vc.check_eq((log[i][0], list(log[i][1]), log[i][2]), expected[i], "send_find_services.entries_are_exactly_the_watched_services_not_found_now")
         return
-    # the schedule up to the point this path has reached
+    # the schedule up to the point this path has reached: the first round (index 0) and, if
+    # the repetition loop was entered, ONE arbitrary repetition rep[1] (index 1 on this path;
+    # the repetitions before it are cut away)
+    rep = st["rep"]
+    vc.check(st["round"] <= 1 and (st["round"] == 1) == (rep is not None and rep[0]), "send_find_services.one_wait_per_round")
+    if st["round"] > 1:
+        return
+    if rep is not None and rep[0]:
+        vc.cover("repetition")
+        vc.check(rep[1] >= 0 and rep[1] < t.REPETITIONS_MAX, "send_find_services.bounded_number_of_rounds")
+        vc.check(st["missing"][0], "send_find_services.no_round_after_everything_was_found")
     expected = []
     rounds = 0
     ended = False
     for k in range(st["round"] + 1):
-        expected.append(("sleep", None if k == 0 else (2 ** (k - 1)) * t.REPETITIONS_BASE_DELAY))
+        expected.append(("sleep", None if k == 0 else (2 ** rep[1]) * t.REPETITIONS_BASE_DELAY))
         if k < len(st["lists"]):
             # this round's list was computed completely
             if st["missing"][k]:
@@ -175,11 +200,15 @@ def ob_send_find_services(vc):
                 vc.check_eq(log[i][0], "find", "send_find_services.round_is_a_find_message")
                 vc.check_eq(log[i][2], None, "send_find_services.sent_to_the_multicast_group")
                 vc.check(log[i][1] is expected[i][1], "send_find_services.sends_exactly_the_list_computed_for_this_round")
+    if o.kind == "cut" and st["element"] is None:
+        # the cut of the repetition loop: this repetition's round was sent, the next follows
+        vc.cover("repetition-continues")
+        vc.check(rep is not None and rep[0] and not ended and len(st["lists"]) == 2, "send_find_services.repetition_sends_its_round_while_something_is_missing")
+        return
     if o.kind == "cut":
         vc.cover("element")
         service, included, elt = st["element"]
         vc.check(not ended, "send_find_services.no_round_after_everything_was_found")
-        vc.check(st["round"] <= t.REPETITIONS_MAX, "send_find_services.bounded_number_of_rounds")
         vc.check_eq(included, not st["found"], "send_find_services.entries_are_exactly_the_watched_services_not_found_now")
         if included:
             vc.check_eq(elt, service.create_find_entry(t.FIND_TTL), "send_find_services.entry_is_the_filters_find_entry_with_the_configured_ttl")
@@ -190,7 +219,10 @@ def ob_send_find_services(vc):
         vc.check_eq(len(st["lists"]), st["round"] + 1, "send_find_services.ends_at_the_first_round_with_nothing_missing")
     else:
         vc.cover("all-rounds")
-        vc.check_eq(rounds, 1 + t.REPETITIONS_MAX, "send_find_services.all_rounds_used_while_something_is_missing")
+        # the task ends with something still missing only after the last repetition
+        vc.check(rep is not None and not rep[0], "send_find_services.all_rounds_used_while_something_is_missing")
+        if rep is not None:
+            vc.check_eq(rep[1], t.REPETITIONS_MAX, "send_find_services.all_rounds_used_while_something_is_missing")
 
 
 def ob_service_found(vc):
@@ -249,4 +281,4 @@ def ob_discover_start(vc):
 
 
 HARNESSES = [SCFG.ob_create_find_entry_refines, SCFG.ob_matches_service_refines, ob_service_found, ob_send_find_services, ob_discover_start, C05.ob_handle_offer, C05.ob_expiry, canary_not_found_means_empty_store]
-EXPECT_COVERS = {"ob_send_find_services": ["nothing-watched", "all-found", "all-rounds", "element"], "ob_service_found": ["found", "not-found", "stored-offer"]}
+EXPECT_COVERS = {"ob_send_find_services": ["nothing-watched", "all-found", "all-rounds", "element", "repetition", "repetition-continues"], "ob_service_found": ["found", "not-found", "stored-offer"]}
